@@ -338,6 +338,10 @@ class Interp(ExprMixin, CallMixin):
     def merge_env(self, fr, cond, a, b):
         names = set(a.env) | set(b.env)
         for n in names:
+            if n == '__refined__':
+                ra, rb = a.env.get(n, {}), b.env.get(n, {})
+                fr.env[n] = {k: v for k, v in ra.items() if rb.get(k) is v} if isinstance(ra, dict) and isinstance(rb, dict) else {}
+                continue
             va = a.env.get(n, Unknown('unbound'))
             vb = b.env.get(n, Unknown('unbound'))
             if same_value(va, vb):
@@ -362,6 +366,7 @@ class Interp(ExprMixin, CallMixin):
         b = self.fork(fr, node.orelse)
         a.cond_depth += 1
         b.cond_depth += 1
+        self.refine_types(st.test, cond, a)
         sa = self.exec_body(st.body, a)
         sb = self.exec_body(st.orelse, b)
         node.then_status, node.else_status = sa, sb
@@ -382,10 +387,30 @@ class Interp(ExprMixin, CallMixin):
             return 'break' if 'break' in (sa, sb) else 'continue'
         return 'return' if 'return' in (sa, sb) else 'raise'
 
+    def refine_types(self, test, cond, fr):
+        """``if isinstance(x, T)`` (possibly inside ``and``): x has type T in the then branch."""
+        tests = test.values if isinstance(test, ast.BoolOp) and isinstance(test.op, ast.And) else [test]
+        for t in tests:
+            if isinstance(t, ast.Call) and isinstance(t.func, ast.Name) and t.func.id == 'isinstance' and \
+                    len(t.args) == 2 and isinstance(t.args[0], ast.Name) and t.args[0].id in fr.env:
+                tv = self.eval(t.args[1], fr)
+                cur = fr.env[t.args[0].id]
+                if isinstance(tv, ClassV) and isinstance(tv.cls, ClassInfo) and isinstance(cur, Sym):
+                    fr.env[t.args[0].id] = Sym('typed', cur, tv)
+            elif isinstance(t, ast.Call) and isinstance(t.func, ast.Name) and t.func.id == 'isinstance' and \
+                    len(t.args) == 2 and isinstance(t.args[0], ast.Attribute):
+                tv = self.eval(t.args[1], fr)
+                cur = self.eval(t.args[0], fr)
+                if isinstance(tv, ClassV) and isinstance(tv.cls, ClassInfo) and isinstance(cur, SelfV) and cur.typ is None:
+                    ref = dict(fr.env.get('__refined__', {}))
+                    ref[cur.path] = tv.cls
+                    fr.env['__refined__'] = ref
+
     def s_For(self, st, fr):
         it = self.eval(st.iter, fr)
         items = self.iter_items(it)
-        if items is not None and len(items) <= 64 and not isinstance(it, (str, bytes)):
+        search = self.is_search_loop(st)
+        if items is not None and len(items) <= 64 and not isinstance(it, (str, bytes)) and not search:
             fr.unrolled = getattr(fr, 'unrolled', 0) + 1
             fr.in_loop += 1
             broke = False
@@ -405,8 +430,26 @@ class Interp(ExprMixin, CallMixin):
                 return self.exec_body(st.orelse, fr)
             return 'next'
         node = Loop('for', it, ast.unparse(st.target), [], st)
+        node.search = search
         fr.emit(node)
         return self.symbolic_loop(st, fr, node, Sym('elem', it))
+
+    @staticmethod
+    def contains_break(st):
+        for n in ast.walk(st):
+            if isinstance(n, ast.Break):
+                return True
+        return False
+
+    @staticmethod
+    def is_search_loop(st):
+        """``for x in xs: if cond(x): <emit>; break`` + ``else: raise`` -- exactly one iteration emits."""
+        if len(st.body) != 1 or not isinstance(st.body[0], ast.If) or st.body[0].orelse:
+            return False
+        ifb = st.body[0].body
+        if not ifb or not isinstance(ifb[-1], ast.Break):
+            return False
+        return bool(st.orelse) and isinstance(st.orelse[-1], ast.Raise)
 
     def s_While(self, st, fr):
         cond = self.eval(st.test, fr)
@@ -427,6 +470,8 @@ class Interp(ExprMixin, CallMixin):
         node.status = status
         # accumulate loop carried values
         for n, new in sub.env.items():
+            if n == '__refined__':
+                continue
             old = before.get(n)
             if old is None and n not in before:
                 fr.env[n] = Sym('loopvar', new)
@@ -447,9 +492,14 @@ class Interp(ExprMixin, CallMixin):
                     continue
             fr.env[n] = Sym('loopacc', old, new)
         if st.orelse:
-            self.exec_body(st.orelse, fr)
-        if status == 'return' and False:
-            return 'return'
+            if self.contains_break(st):
+                alt = Alt(Sym('loop_exhausted', node.iterable), [], [], st)
+                fr.emit(alt)
+                sub2 = self.fork(fr, alt.then)
+                sub2.cond_depth += 1
+                self.exec_body(st.orelse, sub2)
+            else:
+                return self.exec_body(st.orelse, fr)
         return 'next'
 
     def s_Try(self, st, fr):
@@ -472,6 +522,8 @@ class Interp(ExprMixin, CallMixin):
             sub.cond_depth += 1
             # variables assigned in the try body are uncertain inside the handler
             for n, v in body.env.items():
+                if n == '__refined__':
+                    continue
                 if n not in fr.env or not same_value(fr.env[n], v):
                     sub.env[n] = Sym('phi', fr.env.get(n, Unknown('unbound')), v)
             if h.name:
